@@ -19,7 +19,7 @@ from haiway import MISSING, State, ctx  # noqa: E402
 ID = "C10"
 TECHNIQUE = "stateless exploration (DFS, prefix replay) of all interleavings of recording tasks over scope trees on the real metrics context; reference = per-task scope stack + left fold in observed order"
 RULE = (
-    "scope trees (root + up to 2 children as star or chain, placed inline / ctx.spawn / create_task; "
+    "scope trees (root + up to 2 children as star or chain - plus chain-and-later-sibling with 3 - placed inline / ctx.spawn / create_task; "
     "optionally the child scope is left by a handled cancellation) with up to R "
     "records at positions {outside before, root before children, child body, root after "
     "children, child task after its scope, outside after} x metric type {M1, M2} x merge "
@@ -81,7 +81,27 @@ POSITIONS1 = ["out-pre", "root-pre", "c0-body", "root-post", "c0-late", "out-pos
 OPTIONS = [("M1", "default"), ("M1", "concat"), ("M1", "raising"), ("M2", "default"), ("M2", "concat"), ("MG", "concat")]
 
 
+def _chain_plus_sibling(tier: str):
+    # c0 contains c1, and c2 is a later first-level sibling of c0: the merged view folds nested
+    # scopes depth first in creation order (c0, c1, c2), not level by level
+    for p2 in ("inline", "create"):
+        for p1 in ("inline", "spawn"):
+            for nrec in (2, 3):
+                for pos in itertools.combinations_with_replacement(["root-pre", "c0-body", "c1-body", "c2-body"], nrec):
+                    if "c1-body" not in pos or "c2-body" not in pos:
+                        continue
+                    for opts in itertools.product((0, 1), repeat=nrec):
+                        yield {
+                            "root": "a",
+                            "children": ["inline", p1, p2],
+                            "shape": "chain2",
+                            "c0_end": "return",
+                            "records": [[p, *OPTIONS[o]] for p, o in zip(pos, opts)],
+                        }
+
+
 def programs(tier: str):
+    yield from _chain_plus_sibling(tier)
     for p in _base_programs(tier):
         yield p
         # the same immutable metric instance recorded again and again (a shared constant)
@@ -225,7 +245,7 @@ def execute(program, ch: Chooser) -> Result:  # noqa: C901, PLR0915
                 stacks[me].append(name)
                 try:
                     await run_records(f"{name}-body")
-                    if c == 0 and program.get("shape") == "chain":
+                    if c == 0 and program.get("shape") in ("chain", "chain2"):
                         place = program["children"][1]
                         if place == "inline":
                             await child(1, stacks[me])
@@ -259,7 +279,7 @@ def execute(program, ch: Chooser) -> Result:  # noqa: C901, PLR0915
         stacks[me].append("root")
         await run_records("root-pre")
         for c, place in enumerate(program["children"]):
-            if c == 1 and program.get("shape") == "chain":
+            if c == 1 and program.get("shape") in ("chain", "chain2"):
                 continue  # started by c0
             if place == "inline":
                 await child(c, stacks[me])
